@@ -9,11 +9,12 @@ def one(n):
     meta = json.load(open(os.path.join(base, n, "meta.json")))
     prop = meta["property"]
     expect = meta.get("expect", "violation")
-    r = subprocess.run(["/venv/bin/python", "/verif/tools/variant.py", "--patch", os.path.join(base, n, "patch.diff"), prop], cwd="/verif", capture_output=True, text=True)
+    check = meta.get("caught_by", prop)        # indirect changes: reported by the check that owns the edited helper
+    r = subprocess.run(["/venv/bin/python", "/verif/tools/variant.py", "--patch", os.path.join(base, n, "patch.diff"), check], cwd="/verif", capture_output=True, text=True)
     code = [l for l in r.stdout.splitlines() if l.startswith("--- ")]
     ex = code[0].split("exit")[-1].strip() if code else "?"
     rules = sorted({l.split("[")[1].split("]")[0] for l in r.stdout.splitlines() if "] " in l and "[" in l and ("src/" in l or "demos/" in l)})
-    return n, prop, expect, ex, rules
+    return n, prop if check == prop else f'{prop}>{check}', expect, ex, rules
 with ThreadPoolExecutor(8) as ex:
     rows = list(ex.map(one, names))
 bad = 0
